@@ -1,47 +1,51 @@
 ------------------------------ MODULE TagsMC ------------------------------
 (* Model-checking instances of Tags (C06): the configuration spaces.       *)
 (* A configuration = back end x (registry: tag-delete API, page size,      *)
-(* manifest cache) x initial content (x layout code variant).              *)
+(* manifest cache cold / warm) x initial content x repairs taken back      *)
+(* (conf.old, {} = the code as it is).                                     *)
 EXTENDS Tags
 MCTagOrder == <<"t1", "t2">>
 MCTagOrder3 == <<"t1", "t2", "t3">>
-C(b, td, pg, c, i, f) == [backend |-> b, tagdel |-> td, page |-> pg, cache |-> c, init |-> i, fixed |-> f, warm |-> FALSE]
+C(b, td, pg, c, i) == [backend |-> b, tagdel |-> td, page |-> pg, cache |-> c, init |-> i, old |-> {}, warm |-> FALSE]
 Warm(S) == S \cup {[c EXCEPT !.warm = TRUE] : c \in {x \in S : x.cache}}
-RegConfs == Warm({C("reg", td, pg, c, i, FALSE) : td \in BOOLEAN, pg \in {0, 1, 2}, c \in BOOLEAN, i \in {"empty", "pair"}})
-RegNoCache == {c \in RegConfs : ~c.cache}
+Old(S, o) == {[c EXCEPT !.old = o] : c \in S}
+Reg(inits) == Warm({C("reg", td, pg, c, i) : td \in BOOLEAN, pg \in {0, 1, 2}, c \in BOOLEAN, i \in inits})
+Lay(inits) == {C("layout", TRUE, 0, FALSE, i) : i \in inits}
+CleanInits == {"nodir", "empty", "pair", "untagged"}
+ForeignInits == {"dupadj", "dupsep", "dupsame", "fullname", "mixed"}   \* 2-tag versions of the driver's foreign layouts
+
+RegConfs == Reg({"empty", "pair"})
 RegCache == {c \in RegConfs : c.cache}
-\* smaller spaces for the 3-goroutine runs: paging matters with concurrency, the start content less
-RegFallbackPair == {c \in RegNoCache : c.init = "pair" /\ ~c.tagdel /\ c.page = 0}
-RegNoCacheShared == {c \in RegNoCache : c.init = "pair"}
-RegCacheShared == {c \in RegCache : c.init = "pair" /\ c.page = 0}
-LayClean == {C("layout", TRUE, 0, FALSE, i, FALSE) : i \in {"nodir", "empty", "pair", "untagged"}}
-LayShared == {C("layout", TRUE, 0, FALSE, "pair", FALSE)}
-\* layouts written by other tools: HEAD code (expected to violate: S5) and the repaired code
-LayForeign == {C("layout", TRUE, 0, FALSE, i, FALSE) : i \in {"dupadj", "dupsep", "dupsame", "fullname", "mixed"}}
-LayDupAdj == {C("layout", TRUE, 0, FALSE, "dupadj", FALSE)}
-LayFullName == {C("layout", TRUE, 0, FALSE, i, FALSE) : i \in {"fullname", "mixed"}}
-Fix(S) == {[c EXCEPT !.fixed = TRUE] : c \in S}
-LayForeignFixed == {C("layout", TRUE, 0, FALSE, i, TRUE) : i \in {"dupadj", "dupsep", "dupsame", "fullname", "mixed", "untagged", "pair", "nodir"}}
-\* the repaired code under concurrency: cache coherence and stable heads must hold
-FixedConc == Fix(RegCache) \cup Fix(LayClean)
-SeqConfs == RegConfs \cup LayClean
-Conc2Confs == RegConfs \cup LayClean
-\* schedule generation: 3 tags in the registry so that paging has something to page
-RegConfs3 == Warm({C("reg", td, pg, c, i, FALSE) : td \in BOOLEAN, pg \in {0, 1, 2}, c \in BOOLEAN, i \in {"pair", "shared"}})
-LayConfs3 == {C("layout", TRUE, 0, FALSE, i, FALSE) : i \in {"pair", "shared", "untagged", "nodir"}}
+LayClean == Lay(CleanInits)
+LayAll == Lay(CleanInits \cup ForeignInits)
+LayPair == Lay({"pair"})
+\* must hold: the code as it is
+SeqConfs == RegConfs \cup LayAll
+Conc2Confs == RegConfs \cup LayAll
+\* 3 tags in the registry so that paging has something to page
+RegConfs3 == Reg({"pair", "shared"})
+LayConfs3 == Lay({"pair", "shared", "untagged", "nodir"})
+SeqConfs3 == RegConfs3 \cup LayConfs3 \cup Reg({"empty"}) \cup Lay(ForeignInits)
 SchedConfs == RegConfs3 \cup LayConfs3
+
+\* the behaviour before the repairs: each of these must keep producing its counterexample (they explain
+\* the seeds seeded/fixrev-C06-* and keep the switch conf.old honest)
+OldDup == Old(Lay({"dupadj"}), {"layout"})
+OldFullName == Old(Lay({"fullname", "mixed"}), {"layout"})
+OldCache == Old({c \in RegCache : c.init = "pair" /\ c.page = 0}, {"cache"})
+OldHead == Old(LayPair, {"head"})
+\* sanity variants of the design itself
+RegFallbackPair == {c \in RegConfs : ~c.cache /\ c.init = "pair" /\ ~c.tagdel /\ c.page = 0}
+
+\* sequential behaviours of (D) whose back-end state is compared with the real one after every operation:
+\* every layout start content and the registry without cache; on the foreign start contents also the
+\* behaviour before bf19c36 - the runner reports which variant the code under test matches
+Seq1Confs == Lay(CleanInits \cup ForeignInits \cup {"shared"}) \cup {C("reg", td, 0, FALSE, i) : td \in BOOLEAN, i \in {"empty", "shared"}}
+Seq1Both == Seq1Confs \cup Old(Lay(ForeignInits), {"layout"})
 \* exhaustive schedule enumeration (thorough): every interleaving of 2 goroutines x 1 operation on the
 \* registry variants where interleavings matter most (fall-back delete, paged listing, cache cold / warm)
-\* sequential behaviours of (D) whose back-end state is compared with the real one after every
-\* operation: every layout start content (HEAD code variant) and the registry without cache
-Seq1Confs == {C("layout", TRUE, 0, FALSE, i, FALSE) : i \in {"nodir", "empty", "pair", "shared", "untagged", "dupadj",
-                                                            "dupsep", "dupsame", "fullname", "mixed"}}
-             \cup {C("reg", td, 0, FALSE, i, FALSE) : td \in BOOLEAN, i \in {"empty", "shared"}}
-\* ... and the repaired layout code on the start contents where the two variants differ: the runner reports
-\* which variant of (D) the code under test matches
-Seq1Both == Seq1Confs \cup {C("layout", TRUE, 0, FALSE, i, TRUE) : i \in {"dupadj", "dupsep", "dupsame", "fullname", "mixed"}}
 SchedAllConfs == {c \in RegConfs3 : c.init = "shared" /\ c.page = 1 /\ (c.cache => c.warm)}
-SeqConfs3 == RegConfs3 \cup LayConfs3 \cup {C("reg", td, pg, c, "empty", FALSE) : td \in BOOLEAN, pg \in {0, 1, 2}, c \in BOOLEAN}
+
 AllKinds == {"push", "pushd", "tagdel", "mdel", "mdelr", "head", "get", "list"}
 MutOnly == {"push", "pushd", "tagdel", "mdel", "mdelr"}
 HeadRaceKinds == {"push", "mdel", "head"}
